@@ -100,7 +100,10 @@ def unit(model, sizes, generic=False):
 
 
 def units(tier):
-    return [("unit", (m, s)) for m in extract.MODELS for s in shapes(tier, nmax=4 if tier == "quick" else 6)] + [("unit", (m, (1,) * n, True)) for m in extract.MODELS for n in range(2, (4 if tier == "quick" else 6) + 1)]
+    us = [("unit", (m, s)) for m in extract.MODELS for s in shapes(tier, nmax=4 if tier == "quick" else 6)] + [("unit", (m, (1,) * n, True)) for m in extract.MODELS for n in range(2, (4 if tier == "quick" else 6) + 1)]
+    if tier == "quick":
+        us += [("unit", (m, (1,) * 6)) for m in extract.MODELS]
+    return us
 
 
 def main(tier, seed):
